@@ -3,6 +3,7 @@ package tree
 import (
 	"context"
 	"fmt"
+	"math"
 
 	sdcpb "github.com/sdcio/sdc-protos/sdcpb"
 	"github.com/sdcio/yang-parser/xpath"
@@ -31,6 +32,12 @@ func (y *yangParserEntryAdapter) valueToDatum(tv *sdcpb.TypedValue) xpath.Datum 
 		return xpath.NewBoolDatum(tv.GetBoolVal())
 	case *sdcpb.TypedValue_UintVal:
 		return xpath.NewNumDatum(float64(tv.GetUintVal()))
+	case *sdcpb.TypedValue_IntVal:
+		return xpath.NewNumDatum(float64(tv.GetIntVal()))
+	case *sdcpb.TypedValue_DecimalVal:
+		return xpath.NewNumDatum(float64(ttv.DecimalVal.GetDigits()) / math.Pow10(int(ttv.DecimalVal.GetPrecision())))
+	case *sdcpb.TypedValue_DoubleVal:
+		return xpath.NewNumDatum(tv.GetDoubleVal())
 	case *sdcpb.TypedValue_LeaflistVal:
 		datums := make([]xpath.Datum, 0, len(ttv.LeaflistVal.GetElement()))
 		for _, e := range ttv.LeaflistVal.GetElement() {
